@@ -310,6 +310,25 @@ package protocol
 //@     invariant s.isClient == old(s.isClient)
 //@     invariant s.downloadBytes == old(s.downloadBytes)
 //@
+//@ // Quota (C19): a session is admitted (ok without error) only after every quota of the
+//@ // user's policy has been evaluated against both of the user's counters; it is refused only
+//@ // when the traffic computed for some quota's window exceeds that quota's allowance; a
+//@ // policy without quotas admits.
+//@ func (s *Session) checkQuota(userName string) (ok bool, err error)
+//@   property C19
+//@   mode int
+//@   partial
+//@   posts_only
+//@   noframe
+//@   may_panic
+//@   requires s != nil
+//@   assert_at "return false, nil": totalBytes/1048576 > int64(quota.megabytes)
+//@   ensures !ok ==> err == nil
+//@   ensures ok && err == nil && old(s.userPolicy.v) != nil ==> ghost(ndelta) == old(ghost(ndelta)) + 2 * mathint(len(asptr(old(s.userPolicy.v), *serveruser.Policy).quotas))
+//@   loop 1:
+//@     invariant -1 <= rangeindex && rangeindex < len(asptr(old(s.userPolicy.v), *serveruser.Policy).quotas)
+//@     invariant ghost(ndelta) == old(ghost(ndelta)) + 2 * (mathint(rangeindex) + 1)
+//@
 //@ // Dispatch of one received segment. Direction check (C04): a segment type that only
 //@ // the local side itself sends (e.g. a reflected copy of its own data) is refused
 //@ // before it can touch the session. No input makes it panic (C10).
@@ -487,14 +506,17 @@ package protocol
 //@ // send nor a receive cipher - i.e. before any first segment authenticated - a write
 //@ // attempt fails without a single byte reaching the connection.
 //@ func (t *StreamUnderlay) writeOneSegment(seg *segment) (err error)
-//@   property C05
+//@   property C05 C16
 //@   mode int
 //@   partial
 //@   posts_only
 //@   noframe
 //@   may_panic
-//@   requires t != nil && (t.isClient ==> t.block != nil)
-//@   ensures !old(t.isClient) && old(t.send) == nil && old(t.recv) == nil ==> err != nil && ghost(wr) == old(ghost(wr)) && t.send == nil
+//@   requires t != nil && (t.isClient ==> t.block != nil) && 1280 <= t.mtu && t.mtu <= 1500
+//@   assert_at "ss.suffixLen = uint8(len(padding))": [C16] len(padding) <= 255 && (t.trafficPattern != nil && t.trafficPattern.Padding != nil && t.trafficPattern.Padding.MaxEndPaddingLen != nil ==> len(padding) <= max(0, int(*t.trafficPattern.Padding.MaxEndPaddingLen)))
+//@   assert_at "das.prefixLen = uint8(len(padding1))": [C16] len(padding1) <= 255 && (t.trafficPattern != nil && t.trafficPattern.Padding != nil && t.trafficPattern.Padding.MaxMiddlePaddingLen != nil ==> len(padding1) <= max(0, int(*t.trafficPattern.Padding.MaxMiddlePaddingLen)))
+//@   assert_at "das.suffixLen = uint8(len(padding2))": [C16] len(padding2) <= 255 && (t.trafficPattern != nil && t.trafficPattern.Padding != nil && t.trafficPattern.Padding.MaxEndPaddingLen != nil ==> len(padding2) <= max(0, int(*t.trafficPattern.Padding.MaxEndPaddingLen)))
+//@   ensures [C05] !old(t.isClient) && old(t.send) == nil && old(t.recv) == nil ==> err != nil && ghost(wr) == old(ghost(wr)) && t.send == nil
 //@
 //@ // What may create a server session (C05, C04): exactly an openSessionRequest with a
 //@ // non-zero session id; and the protocols a server accepts from a client at all.
@@ -543,6 +565,60 @@ package protocol
 //@   requires t != nil && seg != nil
 //@   assert_call newSessionWithServerUserPolicy: arg0 != 0 && arg1 == false && arg2 == t.mtu
 //@   ensures old(t.isClient) ==> err != nil
+//@
+//@ // Closing a TCP underlay first gives the connection an immediate deadline in BOTH
+//@ // directions, so that an output loop blocked in Write under back-pressure (holding the
+//@ // session's output lock) is released before the sessions are closed (C15).
+//@ func (t *StreamUnderlay) Close() (err error)
+//@   property C15
+//@   mode int
+//@   partial
+//@   posts_only
+//@   noframe
+//@   may_panic
+//@   requires t != nil
+//@   assert_call baseUnderlay.Close: ghost(deadl) == 1
+//@
+//@ func (b *baseUnderlay) Close() (err error)
+//@   trusted closes every session through sync.Map.Range and waits for their goroutines (schedules: outside the technique)
+//@
+//@ // Sender side of the low-entropy codec: not yet verified (open item of C17); assumed only
+//@ // not to touch anything but its own result.
+//@ func newLowEntropyHalfMask(mode appctlpb.LowEntropyMode) (mask uint32, err error)
+//@   trusted rejection sampling of a random mask of the mode's weight (rng loop); result unconstrained
+//@
+//@ func encodeLowEntropyPayload(payload []byte, mode appctlpb.LowEntropyMode, initialMask uint32, rotation appctlpb.LowEntropyMaskRotation) (r []byte, err error)
+//@   trusted encoder loop not yet under contract (decoder is: decodeLowEntropyPayload); result unconstrained
+//@
+//@ // Padding generators: the length never exceeds the requested maximum (the content is
+//@ // random; floating point and crypto/rand are outside the subset).
+//@ func newPadding(opts paddingOpts) (r []byte)
+//@   trusted random content, floating-point entropy targeting; only the length bound is stated (ascii: Intn(max-min+1)+min, entropy: min(maxLen, ...))
+//@   ensures len(r) <= max(0, opts.maxLen) && len(r) <= cap(r)
+//@
+//@ func buildRecommendedPaddingOpts(maxLen int, randomDataLen int, strategySource string) (r paddingOpts)
+//@   trusted strategy choice by hash of the user name, random filler; the requested maximum is passed on unchanged
+//@   ensures r.maxLen == maxLen
+//@
+//@ // Datagram assembly (C16, C14): the padding put around a UDP segment respects the
+//@ // configured maxima for its position (prefix: middle, suffix: end; 0 means none), and
+//@ // what is handed to WriteTo is header + prefix + payload(+tag) + suffix.
+//@ func (u *PacketUnderlay) writeOneSegment(seg *segment, addr net.Addr) (err error)
+//@   property C16 C14
+//@   mode int
+//@   partial
+//@   posts_only
+//@   noframe
+//@   may_panic
+//@   requires u != nil && 1280 <= u.mtu && u.mtu <= 1500
+//@   assert_at "ss.suffixLen = uint8(len(padding))": len(padding) <= 255 && (u.trafficPattern != nil && u.trafficPattern.Padding != nil && u.trafficPattern.Padding.MaxEndPaddingLen != nil ==> len(padding) <= max(0, int(*u.trafficPattern.Padding.MaxEndPaddingLen)))
+//@   assert_at "das.prefixLen = uint8(len(padding1))": len(padding1) <= 255 && (u.trafficPattern != nil && u.trafficPattern.Padding != nil && u.trafficPattern.Padding.MaxMiddlePaddingLen != nil ==> len(padding1) <= max(0, int(*u.trafficPattern.Padding.MaxMiddlePaddingLen)))
+//@   assert_at "das.suffixLen = uint8(len(padding2))": len(padding2) <= 255 && (u.trafficPattern != nil && u.trafficPattern.Padding != nil && u.trafficPattern.Padding.MaxEndPaddingLen != nil ==> len(padding2) <= max(0, int(*u.trafficPattern.Padding.MaxEndPaddingLen)))
+//@   // no datagram longer than the MTU leaves (C14), given a segment whose payload was cut for this
+//@   // MTU (payloadLen + 88 <= mtu, the fragment bound of writeChunk) and whose length field is exact;
+//@   // a low-entropy segment is refused instead when its encoded form would not fit
+//@   assert_call net.PacketConn.WriteTo: [C14] typeof(seg.metadata) == typeid(*sessionStruct) && len(seg.payload) == int(payload(seg.metadata, *sessionStruct).payloadLen) && len(seg.payload) + 88 <= u.mtu ==> len(arg0) <= u.mtu
+//@   assert_call net.PacketConn.WriteTo: [C14] typeof(seg.metadata) == typeid(*dataAckStruct) && (payload(seg.metadata, *dataAckStruct).baseStruct.protocol == uint8(dataClientToServerLowEntropy) || payload(seg.metadata, *dataAckStruct).baseStruct.protocol == uint8(dataServerToClientLowEntropy) || (len(seg.payload) == int(payload(seg.metadata, *dataAckStruct).payloadLen) && len(seg.payload) + 88 <= u.mtu)) ==> len(arg0) <= u.mtu
 //@
 //@ // The only functions of this package that put bytes on the wire (C05): everything a
 //@ // receive path does before a segment is authenticated is outside this set.
